@@ -15,7 +15,7 @@ try:
 except Exception: pass
 ") | sed -n 's/.*check=\(C[0-9]*\).*/\1/p' | sort -u | tr '\n' ' ')
   extra=""
-  case "$sd" in C10-B|C11-B|C14-D|C15-D|C05-F|C06-E|C08-H|C15-H|C07-A|C01-J|C13-I|C15-P) extra="C17";; esac
+  case "$sd" in C10-B|C11-B|C14-D|C15-D|C05-F|C06-E|C08-H|C15-H|C07-A|C01-J|C13-I|C15-P|C08-Q) extra="C17";; esac
   case "$sd" in C16-L) extra="C05";; esac
   case "$sd" in C15-B|C17-I|C12-I) extra="C16";; C15-G) extra="C14";; C11-A) extra="C01 C02 C16";; C03-H) extra="C07";; esac
   list=""
